@@ -525,8 +525,8 @@ func init() {
 		Rule:   "xy.DistanceFromPointToLine / DistanceFromPointToLineString / DistanceFromLineToLine / PerpendicularDistanceFromPointToLine and xyz.Distance / DistancePointToLine / DistanceLineToLine compared with exact rational squared distances (3D segment-segment by exact minimisation of the quadratic over the unit square), square root at 400 bits, tolerance 1e-9*max(1,max|ordinate|); integer grids 4..2^20; classes generic, degenerate first/second/both, parallel, collinear, crossing, touching, T-touch, skew with both parameters outside [0,1], skew interior; every segment pair in all 8 presentations; NaN never accepted. distinct_nontrivial = distinct segment pairs",
 		Assume: []string{"math/big exact; near-parallel (not parallel) 3D pairs judged only on grids <= 2^8 where the double computation of a*c-b*b is exact"},
 		Classes: []fw.Class{
-			{Name: "xy", Quick: 40000, Thorough: 3000000, Run: c15xy},
-			{Name: "xyz", Quick: 60000, Thorough: 5000000, Run: c15xyz},
+			{Name: "xy", Quick: 100000, Thorough: 3000000, Run: c15xy},
+			{Name: "xyz", Quick: 150000, Thorough: 5000000, Run: c15xyz},
 		},
 		Require: []string{"xy_first-degenerate", "xy_second-degenerate", "xy_both-degenerate", "xy_touching_or_crossing", "xyz_first-degenerate", "xyz_second-degenerate", "xyz_both-degenerate", "xyz_parallel", "xyz_collinear", "xyz_crossing", "xyz_touching-endpoint", "xyz_t-touch", "xyz_skew-both-outside", "xyz_both_parameters_outside", "xyz_skew-interior", "exact_distance_zero"},
 	})
